@@ -196,7 +196,9 @@ impl Ctx {
         let log_path = work.join("fuzz.log");
         let Ok(log) = std::fs::File::create(&log_path) else { return };
         let t0 = std::time::Instant::now();
-        let status = Command::new(&bin)
+        use std::os::unix::process::CommandExt;
+        let spawned = Command::new(&bin)
+            .process_group(0)
             .arg(format!("-fork={}", self.threads.max(1)))
             .args(["-ignore_crashes=1", "-ignore_timeouts=1", "-ignore_ooms=1", "-len_control=0", "-timeout=25", "-rss_limit_mb=4096", "-print_final_stats=1"])
             .arg(format!("-max_total_time={seconds}"))
@@ -210,7 +212,29 @@ impl Ctx {
             .stdin(Stdio::null())
             .stdout(Stdio::null())
             .stderr(Stdio::from(log))
-            .status();
+            .spawn();
+        // watchdog: a job that never returns (an input on which a stage does not terminate cannot be
+        // interrupted from inside) must not hang the check; the whole process group is ended 90 s
+        // after the budget and the campaign is counted with what it found until then
+        let status: std::io::Result<std::process::ExitStatus> = match spawned {
+            Err(e) => Err(e),
+            Ok(mut child) => {
+                let pgid = child.id();
+                let mut killed = false;
+                loop {
+                    match child.try_wait() {
+                        Ok(Some(st)) => break Ok(st),
+                        Ok(None) if t0.elapsed().as_secs() > seconds + 90 && !killed => {
+                            let _ = Command::new("kill").args(["-9", &format!("-{pgid}")]).status();
+                            killed = true;
+                            self.note(format!("fuzz target {target}: a fuzzing job did not return {} s after the budget; the campaign was ended by the watchdog (inconclusive for that job)", 90));
+                        }
+                        Ok(None) => std::thread::sleep(std::time::Duration::from_millis(200)),
+                        Err(e) => break Err(e),
+                    }
+                }
+            }
+        };
         let wall = t0.elapsed().as_secs_f64();
         let text = std::fs::read_to_string(&log_path).unwrap_or_default();
         // fork mode progress lines: `#123: cov: 1 ft: 2 corp: 3 exec/s 4 oom/timeout/crash: 0/0/0 time: 5s job: 6 dft_time: 0`
